@@ -96,7 +96,16 @@ fn execute<V: Variant, P: Peer>(plan: &Plan) -> (Option<(String, String)>, Stats
             // our-frame signature bytes
             let ours_frame: Vec<u8> = if signer_is_ours {
                 let sk = if key_is_ours { &osk } else { &imp_sk };
-                match world::sign_sim::<V>(sk, msg, &SignPlan::uniform(rng.next_u64()), None).0 {
+                // a third of the signatures made here under an entropy fault of C01's catalogue (biased
+                // windows put the compressed length on the edge of the budget, forced ties and table
+                // boundaries exercise the sampler's rare paths): what falcon-rust emits at its own limits
+                // must still be what the reference accepts
+                let mut sp = SignPlan::uniform(rng.next_u64());
+                if rng.chance(1, 3) {
+                    sp.mode = Some(crate::props::c01::draw_mode(&mut rng, n));
+                    st.inc("signatures_here_under_entropy_faults");
+                }
+                match world::sign_sim::<V>(sk, msg, &sp, None).0 {
                     Ok(s) => V::sig_to_bytes(&s),
                     Err(u) => return fail(st, format!("sign{} {} with {} key", n, u.signature(), if key_is_ours { "its own" } else { "an imported reference" }), label),
                 }
